@@ -72,9 +72,14 @@ func (ctx *context) ApplyFilter(name string, receiver valueFn, params []valueFn)
 	args := []any{receiver(ctx).Interface()}
 	for i, param := range params {
 		if i+1 < fr.Type().NumIn() && isClosureInterfaceType(fr.Type().In(i+1)) {
-			expr, err := Parse(param(ctx).Interface().(string))
+			// the expression is parsed when the filter is applied: what is wrong with it is the filter's error
+			source, ok := param(ctx).Interface().(string)
+			if !ok {
+				return nil, fmt.Errorf("argument %d must be a string that spells an expression", i+1)
+			}
+			expr, err := Parse(source)
 			if err != nil {
-				panic(err)
+				return nil, err
 			}
 			args = append(args, closure{expr, ctx})
 		} else {
